@@ -182,7 +182,7 @@ def _patch_check_mode():
             out = "EXC:" + type(e).__name__
             raise
         finally:
-            if rec is not None and len(rec["modes"]) < 400:
+            if rec is not None and len(rec["modes"]) < 400 and out != "EXC:_Timeout":   # the alarm can fire anywhere
                 fr = sys._getframe(1)
                 try:
                     rec["modes"].append([fr.f_code.co_name, fr.f_lineno, list(accepted), [enc(x) for x in args], out])
@@ -213,6 +213,8 @@ def _wrap_builtin(pyname, fn):
         except BaseException as e:
             from problog.errors import ProbLogError
             out = ["E", type(e).__name__, isinstance(e, ProbLogError)]
+            if type(e).__name__ == "_Timeout":
+                out = None
             raise
         finally:
             if rec is not None and out is not None and len(rec["calls"]) < 400:
@@ -524,7 +526,7 @@ def shrink_calls(found):
     """found: {klass: (name, args, variant)}.  Two parallel rounds of one-argument simplifications (and the plain
     program context), keeping a candidate only when the same class of internal exception persists."""
     found = dict(found)
-    for _round in range(3):
+    for _round in range(2):
         items, metas = [], []
         for klass, (name, args, variant) in found.items():
             cands = []
@@ -553,7 +555,7 @@ def shrink_calls(found):
 
 
 def malformed_stream(ctx, table, live):
-    per = ctx.n(10, 260)
+    per = ctx.n(8, 110)
     items, metas = [], []
     sigs = sorted(live)
     for sig in sigs:
@@ -643,8 +645,8 @@ GEN_PROGRAMS = [
 
 
 def mutation_stream(ctx):
-    nmut_gen = ctx.n(40, 900)
-    nmut_file = ctx.n(3, 60)
+    nmut_gen = ctx.n(30, 450)
+    nmut_file = ctx.n(3, 30)
     items, metas = [], []
     for k, p in enumerate(GEN_PROGRAMS):
         items.append({"src": p, "record": False, "timeout": 4})
@@ -809,6 +811,14 @@ def replay_calls(ctx, results):
 def replay_all(ctx, table, results):
     mc, mm = replay_modes(ctx, table, results)
     bc, bm = replay_calls(ctx, results)
+    cap = ctx.n(2500, 6000)        # vm_compute replay budget per kind (deterministic subsample beyond it)
+    if len(mc) > cap:
+        keep = sorted(ctx.rng.sample(range(len(mc)), cap))
+        mc, mm = [mc[i] for i in keep], [mm[i] for i in keep]
+    if len(bc) > cap:
+        keep = sorted(ctx.rng.sample(range(len(bc)), cap))
+        bc, bm = [bc[i] for i in keep], [bm[i] for i in keep]
+    ctx.cov["replayed_through_coq"] = {"check_mode": len(mc), "builtin_calls": len(bc)}
     cases = mc + bc
     if not cases:
         return
